@@ -514,6 +514,13 @@ func (s *InMemoryStore) DeleteTopic(ctx context.Context, name string) error {
 			delete(s.offsets, key)
 		}
 	}
+	// Committed consumer offsets of the topic go with it, as in EtcdStore.DeleteTopic.
+	for key := range s.consumerOffsets {
+		if key.topic == name {
+			delete(s.consumerOffsets, key)
+			delete(s.consumerMeta, key)
+		}
+	}
 	return nil
 }
 
